@@ -7,34 +7,45 @@ import (
 	"time"
 )
 
-// MemRWSC is the model file used in place of *os.File (POSIX read/write/seek on one byte array).
+// FileData is the content of one model file (shared by every handle opened on it).
+type FileData struct {
+	Data []byte
+	Name string
+}
+
+// MemRWSC is a handle on a model file, used in place of *os.File (POSIX read/write/seek on one byte array).
 // It implements concurrency.ReadWriteSeekCloser. Faults: if FailWriteAt >= 0 the write call with that
-// index (counted per file) writes a prefix of FailPrefix bytes and returns an error.
+// index (counted per handle) writes a prefix of FailPrefix bytes and returns an error.
 type MemRWSC struct {
-	Data        []byte
+	F           *FileData
 	Pos         int
 	Closed      bool
 	Writes      int
 	FailWriteAt int
 	FailPrefix  int
-	NameStr     string
 }
 
-// NewMemRWSC creates a model file with the given initial content.
+// NewMemRWSC creates a model file with the given initial content and returns a handle at position 0.
 func NewMemRWSC(content []byte) *MemRWSC {
-	return &MemRWSC{Data: content, FailWriteAt: -1}
+	return &MemRWSC{F: &FileData{Data: content}, FailWriteAt: -1}
 }
+
+// Bytes returns the current content of the file.
+func (m *MemRWSC) Bytes() []byte { return m.F.Data }
+
+// Size returns the current length of the file.
+func (m *MemRWSC) Size() int { return len(m.F.Data) }
 
 var ErrModelIO = errors.New("model file: injected I/O error")
 
 func (m *MemRWSC) Read(p []byte) (int, error) {
-	if m.Pos >= len(m.Data) {
+	if m.Pos >= len(m.F.Data) {
 		if len(p) == 0 {
 			return 0, nil
 		}
 		return 0, io.EOF
 	}
-	n := copy(p, m.Data[m.Pos:])
+	n := copy(p, m.F.Data[m.Pos:])
 	m.Pos += n
 	return n, nil
 }
@@ -51,12 +62,12 @@ func (m *MemRWSC) Write(p []byte) (int, error) {
 		err = ErrModelIO
 	}
 	// extend the file with zeros up to Pos if needed (sparse write), then overwrite / append
-	for len(m.Data) < m.Pos {
-		m.Data = append(m.Data, 0)
+	if len(m.F.Data) < m.Pos {
+		m.F.Data = append(m.F.Data, make([]byte, m.Pos-len(m.F.Data))...)
 	}
-	k := copy(m.Data[m.Pos:], w)
+	k := copy(m.F.Data[m.Pos:], w)
 	if k < len(w) {
-		m.Data = append(m.Data, w[k:]...)
+		m.F.Data = append(m.F.Data, w[k:]...)
 	}
 	m.Pos += len(w)
 	return len(w), err
@@ -69,7 +80,7 @@ func (m *MemRWSC) Seek(offset int64, whence int) (int64, error) {
 	case io.SeekCurrent:
 		base = int64(m.Pos)
 	case io.SeekEnd:
-		base = int64(len(m.Data))
+		base = int64(len(m.F.Data))
 	default:
 		return 0, errors.New("model file: bad whence")
 	}
@@ -87,10 +98,10 @@ func (m *MemRWSC) Close() error {
 }
 
 func (m *MemRWSC) Stat() (fs.FileInfo, error) {
-	return memInfo{size: int64(len(m.Data)), name: m.NameStr}, nil
+	return memInfo{size: int64(len(m.F.Data)), name: m.F.Name}, nil
 }
 
-func (m *MemRWSC) Name() string { return m.NameStr }
+func (m *MemRWSC) Name() string { return m.F.Name }
 
 type memInfo struct {
 	size int64
@@ -103,3 +114,52 @@ func (s memInfo) ModTime() time.Time { return time.Time{} }
 func (s memInfo) IsDir() bool        { return false }
 func (s memInfo) Name() string       { return s.name }
 func (s memInfo) Sys() any           { return nil }
+
+// ---- a flat model file system: name -> content --------------------------------------------------------
+
+var files map[string]*FileData
+
+// ResetFS empties the model file system.
+func ResetFS() { files = map[string]*FileData{} }
+
+// PutFile creates (or replaces) a file with the given content.
+func PutFile(name string, content []byte) {
+	if files == nil {
+		files = map[string]*FileData{}
+	}
+	files[name] = &FileData{Data: content, Name: name}
+}
+
+// FileBytes returns the content of a file (nil if it does not exist).
+func FileBytes(name string) []byte {
+	if f, ok := files[name]; ok {
+		return f.Data
+	}
+	return nil
+}
+
+const (
+	oWRONLY = 0x1
+	oRDWR   = 0x2
+	oCREATE = 0x40
+	oTRUNC  = 0x200
+)
+
+// OpenFile is os.OpenFile on the model file system (flags: O_RDONLY, O_WRONLY, O_RDWR, O_CREATE, O_TRUNC).
+func OpenFile(name string, flag int, perm fs.FileMode) (*MemRWSC, error) {
+	if files == nil {
+		files = map[string]*FileData{}
+	}
+	f, ok := files[name]
+	if !ok {
+		if flag&oCREATE == 0 {
+			return nil, &fs.PathError{Op: "open", Path: name, Err: fs.ErrNotExist}
+		}
+		f = &FileData{Name: name}
+		files[name] = f
+	}
+	if flag&oTRUNC != 0 {
+		f.Data = nil
+	}
+	return &MemRWSC{F: f, FailWriteAt: -1}, nil
+}
